@@ -169,6 +169,8 @@ def exec_run(binary, shim, roots, run, dump_dir=None):
     env, cwd = process_env(run["env"], roots, shim, log)
     cmd = [binary, "exec", "--scenario", scen] + (["--dump-dir", dump_dir] if dump_dir else [])
     target = {"pipe": None, "devnull": "/dev/null", "devfull": "/dev/full"}[run["env"].get("stderr", "pipe")]
+    if target is not None and not os.path.exists(target):
+        target = "/dev/null"
     if target is None:
         p = subprocess.run(cmd, env=env, cwd=cwd, stdout=subprocess.PIPE, stderr=subprocess.PIPE)
     else:
